@@ -30,13 +30,16 @@ def valid(seq):
     return True
 
 
-def sequences(depth, first=None):
-    for seq in itertools.product(OPS, repeat=depth):
+FAIL_OPS = ["S", "X1", "X4", "X11"]  # Xk: an iteration in which the user's likelihood raises at its k-th evaluation (if it gets that far)
+
+
+def sequences(depth, first=None, ops=None):
+    for seq in itertools.product(ops or OPS, repeat=depth):
         if first is not None and list(seq[: len(first)]) != list(first):
             continue
         if not valid(seq):
             continue
-        if "S" not in seq:
+        if "S" not in seq and not any(o[0] in "XR" for o in seq):
             continue
         # a load must be followed by at least one iteration somewhere for anything to be observable
         yield seq
@@ -55,6 +58,8 @@ def patterns():
                 out.append(("S", "V0") + ("S",) * a + ("V1", "L0") + ("S",) * b + ("L1",) + ("S",) * c)
     # complete run() calls on an object that is already in use (a second run continues from the stored history)
     out += [("R",), ("R", "R"), ("S", "R"), ("R", "S", "S"), ("R", "V0", "R", "L0", "S"), ("V0", "R", "L0", "R"), ("R", "R", "S")]
+    # iterations aborted by a failure of the user's likelihood, mixed with checkpoints and complete runs
+    out += [("X1", "R"), ("X4", "V0", "S", "L0", "S"), ("V0", "X11", "L0", "S"), ("V0", "S", "X4", "V1", "L0", "X1", "S"), ("X4", "X4", "R"), ("R", "X1", "S")]
     return out
 
 
@@ -68,6 +73,11 @@ class Session:
         self.opno = 0
         self.warm = warm
         self.err = None
+        self.failures = 0
+
+    def _history_digest(self):
+        h = self.p.state._history
+        return tuple((k, len(h[k]), b"".join(np.asarray(b).tobytes() for b in h[k] if b is not None and not isinstance(b, (dict, str)))) for k in ("u", "x", "logl", "beta", "logz") if k in h)
 
     def _ctx(self):
         return (env.quiet(), pl.instrumented(), self.p.tape, self.p._mount())
@@ -88,6 +98,18 @@ class Session:
                     self.opno += 1
                     if op == "S":
                         p.sampler.sample()
+                    elif op[0] == "X":
+                        before = self._history_digest()
+                        p.ll.fail_countdown = int(op[1:])
+                        try:
+                            p.sampler.sample()
+                        except pl.UserFailure:
+                            self.failures += 1
+                            p.in_iter = False
+                            if self._history_digest() != before:
+                                p.violate("session:failed-iteration:history-changed", f"an iteration aborted by an exception of the user's likelihood (evaluation {op[1:]} of the iteration) changed the committed history")
+                        finally:
+                            p.ll.fail_countdown = None
                     elif op == "R":
                         p.sampler.run(n_total=p.cfg.get("run_total", 3 * p.cfg["n_particles"]), progress=False)
                     elif op[0] == "V":
@@ -196,7 +218,7 @@ def run_case(case, make_monitors, oracle=accessor_oracle, key_pred=None, prefix=
     elif case.get("patterns"):
         seqs = patterns()[case["patterns"][0]::case["patterns"][1]]
     else:
-        seqs = list(sequences(case["depth"], first=case.get("first")))
+        seqs = list(sequences(case["depth"], first=case.get("first"), ops=case.get("ops")))
         if case.get("shard"):
             seqs = seqs[case["shard"][0]::case["shard"][1]]
     for seq in seqs:
@@ -208,6 +230,8 @@ def run_case(case, make_monitors, oracle=accessor_oracle, key_pred=None, prefix=
         res.trans += s.p.events
         res.traces += 1
         cc = dict(case, only=list(seq))
+        if s.failures:
+            res.bump("likelihood_failures_injected", s.failures)
         if s.err is not None:
             res.bump("aborted_sessions")
             res.bump("aborted:" + type(s.err).__name__)
